@@ -538,7 +538,8 @@ FLT_POOL = [0.0, 0.5, 1.0, 1.5, 2.0, -0.5, 0.25, 3.0, 10.0, 0.1, 1e10, 1e100, 2.
 class ProgramGen:
     def __init__(self, rng, profile=None):
         self.rng = rng
-        self.pf = dict(floats=True, meta=True, errors=True, goto=True, strings=True, coerce=True, level2=True, stage4=True)
+        self.pf = dict(floats=True, meta=True, errors=True, goto=True, strings=True, coerce=True, level2=True, stage4=True,
+                       paren_dots=True, unary_dummy=True, forin_capture=True, pow_error=True, assert_str=True)
         if profile:
             self.pf.update(profile)
         self.scopes = [[]]
@@ -1095,6 +1096,8 @@ class ProgramGen:
             e1, e2, e3 = Int(r.below(5)), Int(r.below(8)), Int(r.choice([1, 2, 3]))
         elif k < 9:
             e1, e2, e3 = Int(3 + r.below(3)), Int(r.below(3)), Int(r.choice([-1, -2]))
+        elif self.pf.get("ref53"):
+            e1, e2, e3 = Int(2), Int(9), Int(4)
         else:
             hi = (1 << 63) - 1
             e1, e2, e3 = Int(hi - 2), Int(hi), Int(r.choice([1, 2]))
@@ -1385,6 +1388,8 @@ class ProgramGen:
             return None
         mt, a, b = self.fresh("mt"), self.fresh("a"), self.fresh("b")
         k = r.below(12)
+        if k == 10 and self.pf.get("ref53"):
+            k = 8                       # chains of __call are 5.4 only
         self.feat("meta:%d" % k)
         newobj = lambda val: Call(Var("setmetatable"), Tab(FNamed("v", val)), Var(mt))
         pre = [Local([mt], [Tab()])]
@@ -1495,6 +1500,8 @@ class ProgramGen:
         if kind == "flt":
             return [SCall(Call(Var("error"), Flt(2.5), Int(2)))]
         if kind == "assert":
+            if self.pf.get("assert_str") and r.chance(1, 2):
+                return [SCall(Call(Var("assert"), r.choice([FalseE(), Nil()]), *([Str("assert msg")] if r.chance(2, 3) else [])))]
             return [SCall(Call(Var("assert"), FalseE(), Tab(FNamed("code", Int(1)))))]
         if kind == "assertmsg":
             return [SCall(Call(Var("assert"), Nil(), Int(77)))]
@@ -1662,6 +1669,8 @@ class ProgramGen:
         args = [self.exp(r.choice(["int", "str", "any"] if k not in (1, 2) else ["int", "str"]), 1, False, True) for _ in range(nargs)]
         if k == 3 and nargs < 2:
             args += [Int(1), Int(2)]
+        if k == 2 and (nargs == 0 or args[0].k == "nil"):
+            args = [Int(5)] + args       # {..., "end"} must not start with nil (border not unique)
         return [LocalFn(f, Fn([], True, body)), self.emit_stat([Call(Var(f), *args)])]
 
     def s_tailrec(self):
@@ -1696,7 +1705,7 @@ class ProgramGen:
 
     def s_close(self):
         r = self.rng
-        if not self.pf["stage4"] or self.pure or self.block_depth > 2 or self.fn_level > 1:
+        if self.pf.get("ref53") or not self.pf["stage4"] or self.pure or self.block_depth > 2 or self.fn_level > 1:
             return None
         k = r.below(9)
         self.feat("close:%d" % k)
@@ -1733,7 +1742,9 @@ class ProgramGen:
         r = self.rng
         if not self.pf["stage4"] or self.pure or self.block_depth > 2 or self.fn_level > 0:
             return None
-        k = r.below(10)
+        k = r.below(12)
+        if k in (7, 10, 11) and self.pf.get("ref53"):
+            k = 0                       # coroutine.close and <close> are 5.4 only
         self.feat("coroutine:%d" % k)
         em = lambda *a: self.emit_stat(list(a))
         co, g = self.fresh("co"), self.fresh("gen")
@@ -1784,12 +1795,26 @@ class ProgramGen:
                                                                              If([(Bin("eq", Var("x"), Nil()), [Return(Str("fin"), Var("acc"))])], None),
                                                                              Assign([Var("acc")], [Bin("add", Var("acc"), Var("x"))])])]))]),
                     em(Call(Var(g), Int(1), Int(2), Int(3))), em(Call(Var(g), Int(10))), em(Call(Var(g), Int(100))), em(Call(Var(g)))]
+        if k == 10:
+            # coroutine.close runs the pending to-be-closed values of a suspended coroutine, innermost first
+            body = Fn([], False, [Local(["a"], [self.closer(Int(1))], ["close"]),
+                                  SCall(Call(Var("pcall"), Fn([], False, [Local(["b"], [self.closer(Int(2))], ["close"]), SCall(CO("yield", Int(1))), em(Str("never"))]))),
+                                  em(Str("never2"))])
+            return [Local([co], [CO("create", body)]), em(CO("resume", Var(co))), em(CO("status", Var(co))), em(CO("close", Var(co))), em(CO("status", Var(co))),
+                    em(CO("resume", Var(co)))]
+        if k == 11:
+            bad = Call(Var("setmetatable"), Tab(), Tab(FNamed("__close", Fn(["o", "e"], False, [em(Str("bad-close"), Call(Var("type"), Var("e"))), SCall(Call(Var("error"), Tab(FNamed("code", Int(9)))))]))))
+            body = Fn([], False, [Local(["a"], [self.closer(Int(1))], ["close"]), Local(["b"], [bad], ["close"]), SCall(CO("yield", Int(1))), em(Str("never"))])
+            return [Local([co], [CO("create", body)]), em(CO("resume", Var(co))), Local(["ok", "e"], [CO("close", Var(co))]),
+                    em(Var("ok"), And(Bin("eq", Call(Var("type"), Var("e")), Str("table")), Fld(Var("e"), "code")), CO("status", Var(co)))]
         # wrap: error with a non-string value propagates to the caller's pcall
         return [Local([g], [CO("wrap", Fn([], False, [SCall(CO("yield", Int(1))), SCall(Call(Var("error"), Tab(FNamed("code", Int(5)))))]))]),
                 em(Call(Var(g))), Local(["ok", "e"], [Call(Var("pcall"), Var(g))]), em(Var("ok"), And(Bin("eq", Call(Var("type"), Var("e")), Str("table")), Fld(Var("e"), "code"))),
                 em(Call(Var("pcall"), Var(g)))]
 
     def s_const(self):
+        if self.pf.get("ref53"):
+            return None
         x = self.fresh("k")
         e = self.exp("int", 1, False, False)
         self.declare(V(x, "int", mutable=False))
@@ -2033,7 +2058,10 @@ class ErrorGen(ProgramGen):
         if val == "strdef": return [SCall(Call(Var("error"), Str(msg)))]
         if val in ("table", "function"): return [SCall(Call(Var("error"), Var(E), *([Int(r.choice([0, 1, 2]))] if r.chance(1, 2) else [])))]
         if val == "assert-tab": return [SCall(Call(Var("assert"), r.choice([FalseE(), Nil()]), Var(E)))]
-        if val == "assert-int": return [SCall(Call(Var("assert"), FalseE(), Int(77), Int(78)))]
+        if val == "assert-int":
+            if self.pf.get("assert_str") and r.chance(1, 2):
+                return [SCall(Call(Var("assert"), FalseE(), *([Str(msg)] if r.chance(2, 3) else [])))]
+            return [SCall(Call(Var("assert"), FalseE(), Int(77), Int(78)))]
         d = {"rt-arith": Bin(r.choice(["add", "sub", "mul", "div", "mod", "idiv"] + (["pow"] if self.pf.get("pow_error") else [])), Var(n), Int(1)),
              "rt-call": Call(Var(n), Int(1)), "rt-index": Fld(Var(n), "f"),
              "rt-concat": Bin("concat", Var(n), Str("x")), "rt-compare": Bin(r.choice(["lt", "le", "gt", "ge"]), Var(n), Int(1)),
@@ -2117,6 +2145,8 @@ class ErrorGen(ProgramGen):
                     LocalFn(h, Fn([], False, [SCall(Call(Var(g))), em(Str("unreached"))])), SCall(Call(Var(h)))]
         if site in ("close-scope", "close-two", "close-in-loop", "co-resume-rethrow", "co-wrap") and not self.pf["stage4"]:
             return rs
+        if site.startswith("close-") and self.pf.get("ref53"):
+            return rs
         if site == "close-scope":
             return [Local([t], [self.closer(Int(1))], ["close"]), em(Str("scope"))] + rs
         if site == "close-two":
@@ -2141,10 +2171,12 @@ class ErrorGen(ProgramGen):
         catch = catch or r.choice(self.CATCHES)
         if catch in ("resume", "wrap-pcall", "resume-in-pcall") and not self.pf["stage4"]:
             catch = "pcall"
-        if catch == "wrap-pcall" and (val.startswith("str") or val.startswith("rt-") or val == "strdef"):
+        if catch == "wrap-pcall" and (val.startswith("str") or val.startswith("rt-") or val == "assert-int"):
             catch = "resume"        # what coroutine.wrap does to string errors is not fixed by the manual
-        if site == "co-wrap" and (val.startswith("str") or val.startswith("rt-")):
+        if site == "co-wrap" and (val.startswith("str") or val.startswith("rt-") or val == "assert-int"):
             site = "co-resume-rethrow"     # coroutine.wrap may decorate string errors (manual silent)
+        if val == "rt-forstep" and self.pf.get("ref53"):
+            val = "rt-arith"               # a zero step is an error only since 5.4
         if site.startswith("co-") and "xpcall" in catch and not self.pf.get("xpcall_co"):
             catch = "pcall"                # known finding C11-xpcall-handler-sees-coroutine-error (probe only)
         if val == "flt" and not self.pf["floats"]:
